@@ -12,7 +12,7 @@ use flsrc::transposition::{Bounds, TranspositionTable};
 use serde_json::{json, Value};
 use std::collections::HashMap;
 
-pub const RULE: &str = "histories of 0..400 Store{key,eval,move,depth,bound} / Retrieve{key} ops on one table; keys from a universe built for interference (4..12 hot keys; keys agreeing in their low 8/16/20/24/32 bits or high bits or differing in one bit; 0 and u64::MAX; fresh random keys); depths 0..255 biased to equal/adjacent; arbitrary i32 scores incl. mate range. Oracle: HashMap model with 'accept iff no entry or old.depth <= new.depth'; after EVERY op retrieve(k) for the op's key, all hot keys and 4 never-stored keys must equal the model (None or all five fields). Non-trivial = history contains for one key a store that must be rejected (shallower after deeper) AND one accepted at equal depth, and >=2 distinct keys sharing low 16 bits; distinct by op-list hash.";
+pub const RULE: &str = "histories of 0..400 Store{key,eval,move,depth,bound} / Retrieve{key} ops on one table; keys from a universe built for interference (4..12 hot keys; keys agreeing in their low 8/16/20/24/32 bits or high bits or differing in one bit; 0 and u64::MAX; fresh random keys); depths 0..255 biased to equal/adjacent; arbitrary i32 scores incl. mate range. Oracle: observational model of exactly the statement (a lookup may return nothing at any time, so the model is the last OBSERVED content per key): a never-stored key has nothing; between stores retrieve(k) is what was last observed for k or nothing, and once nothing stays nothing; store(k,new) onto nothing or onto depth <= new.depth makes retrieve(k) == new at once (all five fields); store onto a deeper entry leaves that entry; checked after EVERY op for the op's key, all hot keys and 4 never-stored keys. Non-trivial = history contains for one key a store that must be rejected (shallower after deeper) AND one accepted at equal depth, and >=2 distinct keys sharing low 16 bits; distinct by op-list hash.";
 
 #[derive(Clone, Copy, PartialEq, Debug)]
 struct Ent {
@@ -56,18 +56,55 @@ fn gen_universe(s: &mut Src) -> Vec<u64> {
     keys
 }
 
+fn read(tt: &TranspositionTable, k: u64) -> Option<Ent> {
+    tt.retrieve(k).map(|e| Ent {
+        key: e.hash_key,
+        eval: e.eval,
+        mv: e.best_move.map(|m| {
+            (m.from, m.to, m.piece_type.index() as u8, match m.move_type {
+                MoveType::Quiet => 0,
+                MoveType::Capture => 1,
+                MoveType::EnPassant => 2,
+                MoveType::Castle => 3,
+                MoveType::Promotion => 4,
+            })
+        }),
+        depth: e.depth,
+        bound: match e.bounds {
+            Bounds::Exact => 0,
+            Bounds::Lower => 1,
+            Bounds::Upper => 2,
+        },
+    })
+}
+
+/// Observational model.  The statement allows a lookup to return nothing at any time (a table may
+/// forget), so the model is not "a map that never loses anything" but the last OBSERVED content per
+/// key, and the rules are exactly the statement's:
+///  * a key never stored has nothing; nothing is ever returned under a key other than its own;
+///  * between two stores to k, retrieve(k) is what was last observed for k, or nothing — and once
+///    nothing, it stays nothing (no resurrection, no invention);
+///  * store(k, new) when k holds nothing or an entry with depth <= new.depth: retrieve(k) right
+///    afterwards is exactly `new` (an equal or deeper result does replace);
+///  * store(k, new) when k holds a deeper entry: retrieve(k) right afterwards is still that deeper
+///    entry (or nothing) — never `new`.
 fn check(bytes: &[u8], stats: &mut Stats) -> Verdict {
     let mut s = Src::new(bytes);
     let hot = gen_universe(&mut s);
     let never: Vec<u64> = (0..4).map(|i| hot[0].rotate_left(7 * (i + 1)) ^ 0xa5a5_5a5a_dead_beef ^ i as u64).filter(|k| !hot.contains(k)).collect();
     let nops = s.below(401);
     let mut tt = TranspositionTable::new();
-    let mut model: HashMap<u64, Ent> = HashMap::new();
+    let mut obs: HashMap<u64, Option<Ent>> = HashMap::new();
     let mut stored_ever: Vec<u64> = Vec::new();
     let mut last_depth: u8 = s.u8();
     let mut log: Vec<Value> = Vec::new();
     let (mut saw_reject, mut saw_equal_accept) = (false, false);
+    let mut forgotten = 0u64;
     let mut ophash = 0u64;
+    let fail = |sig: &str, opi: usize, k: u64, got: &Option<Ent>, want: String, log: &Vec<Value>| {
+        let tail: Vec<Value> = log.iter().rev().take(12).rev().cloned().collect();
+        Failure::new(sig, json!({"after_op": opi, "probe_key": format!("{:016x}", k), "got": format!("{:?}", got), "allowed": want, "last_ops": tail, "ops_total": log.len()}))
+    };
     for opi in 0..nops {
         let key = if s.chance(88) { hot[s.below(hot.len())] } else { s.u64() };
         if never.contains(&key) {
@@ -79,7 +116,7 @@ fn check(bytes: &[u8], stats: &mut Stats) -> Verdict {
                 0 => last_depth,
                 1 => last_depth.wrapping_add(1),
                 2 => last_depth.wrapping_sub(1),
-                3 => model.get(&key).map(|e| e.depth).unwrap_or(0),
+                3 => obs.get(&key).copied().flatten().map(|e| e.depth).unwrap_or(0),
                 4 => *s.pick(&[0u8, 1, 254, 255]),
                 _ => s.u8(),
             };
@@ -93,64 +130,80 @@ fn check(bytes: &[u8], stats: &mut Stats) -> Verdict {
             let mv = if s.chance(80) { Some((s.below(64) as u8, s.below(64) as u8, s.below(6) as u8, s.below(5) as u8)) } else { None };
             let b = s.below(3) as u8;
             let emv = mv.map(|(f, t, p, mt)| Move::new(f, t, piece(p), mtype(mt)));
+            // what the table holds for this key right now
+            let pre = read(&tt, key);
+            let before = obs.get(&key).copied().flatten();
+            if pre.is_some() && pre != before {
+                let sig = if !stored_ever.contains(&key) { "returned-for-never-stored-key" } else if pre.map(|e| e.key) != Some(key) { "entry-of-another-key" } else { "wrong-entry" };
+                return Err(fail(sig, opi, key, &pre, format!("{:?} or None", before), &log));
+            }
             tt.store(key, eval, emv, depth, bound(b));
             let new = Ent { key, eval, mv, depth, bound: b };
-            match model.get(&key) {
-                None => {
-                    model.insert(key, new);
+            log.push(json!({"op": "store", "key": format!("{:016x}", key), "eval": eval, "depth": depth, "bound": b, "move": format!("{:?}", mv)}));
+            ophash = hash_of(&(ophash, 1u8, key, eval, depth, b, mv));
+            let post = read(&tt, key);
+            match pre {
+                Some(old) if old.depth > depth => {
+                    saw_reject = true;
+                    if post == Some(new) {
+                        return Err(fail("shallower-replaced-deeper", opi, key, &post, format!("{:?} (the deeper entry present before the store)", old), &log));
+                    }
+                    if post.is_some() && post != Some(old) {
+                        let sig = if post.map(|e| e.key) != Some(key) { "entry-of-another-key" } else { "wrong-entry" };
+                        return Err(fail(sig, opi, key, &post, format!("{:?}", old), &log));
+                    }
                 }
-                Some(old) if old.depth <= depth => {
-                    if old.depth == depth {
+                _ => {
+                    if matches!(pre, Some(old) if old.depth == depth) {
                         saw_equal_accept = true;
                     }
-                    model.insert(key, new);
+                    if post != Some(new) {
+                        let sig = match (&post, &pre) {
+                            (None, _) => "accepted-store-not-retrievable",
+                            (Some(g), _) if g.key != key => "entry-of-another-key",
+                            (Some(g), Some(old)) if g == old => "deeper-or-equal-not-accepted",
+                            _ => "wrong-entry",
+                        };
+                        return Err(fail(sig, opi, key, &post, format!("{:?} (nothing, or nothing deeper, was held for the key)", new), &log));
+                    }
                 }
-                Some(_) => saw_reject = true,
             }
+            obs.insert(key, post);
             if !stored_ever.contains(&key) {
                 stored_ever.push(key);
             }
-            log.push(json!({"op": "store", "key": format!("{:016x}", key), "eval": eval, "depth": depth, "bound": b, "move": format!("{:?}", mv)}));
-            ophash = hash_of(&(ophash, 1u8, key, eval, depth, b, mv));
         } else {
             log.push(json!({"op": "retrieve", "key": format!("{:016x}", key)}));
             ophash = hash_of(&(ophash, 2u8, key));
         }
         stats.eval();
-        // compare after every op: the op's key, all hot keys, the never-stored keys
+        // after every op: the op's key, all hot keys, the never-stored keys
         let mut probe: Vec<u64> = vec![key];
         probe.extend_from_slice(&hot);
         probe.extend_from_slice(&never);
         for k in probe {
-            let got = tt.retrieve(k).map(|e| Ent {
-                key: e.hash_key,
-                eval: e.eval,
-                mv: e.best_move.map(|m| (m.from, m.to, m.piece_type.index() as u8, match m.move_type {
-                    MoveType::Quiet => 0,
-                    MoveType::Capture => 1,
-                    MoveType::EnPassant => 2,
-                    MoveType::Castle => 3,
-                    MoveType::Promotion => 4,
-                })),
-                depth: e.depth,
-                bound: match e.bounds {
-                    Bounds::Exact => 0,
-                    Bounds::Lower => 1,
-                    Bounds::Upper => 2,
-                },
-            });
-            let want = model.get(&k).copied();
-            if got != want {
-                let sig = match (&got, &want) {
-                    (Some(_), None) => "returned-for-never-stored-key",
-                    (None, Some(_)) => "lost-entry",
-                    (Some(g), Some(w)) if g.key != w.key => "entry-of-another-key",
-                    (Some(g), Some(w)) if g.depth < w.depth => "shallower-replaced-deeper",
-                    (Some(g), Some(w)) if g.depth > w.depth => "deeper-or-equal-not-accepted",
-                    _ => "wrong-entry",
-                };
-                let tail: Vec<Value> = log.iter().rev().take(12).rev().cloned().collect();
-                return Err(Failure::new(sig, json!({"after_op": opi, "probe_key": format!("{:016x}", k), "got": format!("{:?}", got), "model": format!("{:?}", want), "last_ops": tail, "ops_total": log.len()})));
+            let got = read(&tt, k);
+            let before = obs.get(&k).copied().flatten();
+            match (&got, &before) {
+                (None, None) => {}
+                (None, Some(_)) => {
+                    // the table forgot an entry: allowed by the statement, counted
+                    forgotten += 1;
+                    obs.insert(k, None);
+                }
+                (Some(g), _) if Some(*g) == before => {}
+                (Some(g), _) => {
+                    let sig = if !stored_ever.contains(&k) {
+                        "returned-for-never-stored-key"
+                    } else if g.key != k {
+                        "entry-of-another-key"
+                    } else if before.is_none() {
+                        "entry-came-back-after-lookup-returned-nothing"
+                    } else {
+                        "wrong-entry"
+                    };
+                    return Err(fail(sig, opi, k, &got, format!("{:?} or None", before), &log));
+                }
             }
         }
     }
@@ -168,6 +221,9 @@ fn check(bytes: &[u8], stats: &mut Stats) -> Verdict {
     if shared_low {
         stats.class("keys_sharing_low16");
     }
+    if forgotten > 0 {
+        stats.class_n("entries_the_table_forgot_(allowed)", forgotten);
+    }
     if saw_reject && saw_equal_accept && shared_low {
         stats.nontrivial(&ophash);
     }
@@ -183,7 +239,10 @@ pub fn fuzz_entry(bytes: &[u8]) -> Verdict {
 
 pub fn run(tier: Tier, seed: u64, known: &Known) -> PropRun {
     let mut run = PropRun::new("exploration", RULE);
-    run.assumptions = vec!["the model's acceptance rule (no entry, or old.depth <= new.depth) is the property's 'shallower never replaces deeper, equal or deeper does'".into()];
+    run.assumptions = vec![
+        "acceptance rule (nothing held, or held depth <= new depth => the new data is retrievable at once) is the property's 'shallower never replaces deeper, equal or deeper does'".into(),
+        "a table that forgets entries is allowed by the statement ('returns either nothing or ...'); forgetting is counted, not judged".into(),
+    ];
     let part = Part { name: "ops", cases: tier.pick(20_000, 1_000_000), min_len: 64, max_len: 6000, max_shrink: 6000, threads: threads() };
     let (st, fl) = run_part(&part, seed, known, check);
     run.stats.merge(st);
